@@ -8,6 +8,10 @@ mod util;
 use engine::Tier;
 use std::path::Path;
 
+fn replay_needs_isolation(path: &str) -> bool {
+    std::fs::read_to_string(path).ok().and_then(|s| serde_json::from_str::<engine::ReplayFile>(&s).ok()).map_or(false, |rf| rf.sig.starts_with("abort:"))
+}
+
 fn usage() -> i32 {
     eprintln!("usage: pgcheck run <Cxx> <quick|thorough> [--emit-json] [--only <sub>] | pgcheck replay <file> | pgcheck list");
     2
@@ -36,6 +40,27 @@ fn main() {
             let emit = args.iter().any(|a| a == "--emit-json");
             let only = args.iter().position(|a| a == "--only").and_then(|i| args.get(i + 1)).map(|s| s.as_str());
             engine::run_property(&props, &args[1], tier, emit, only)
+        }
+        Some("run-case") if args.len() >= 4 => engine::run_case_file(&props, &args[1], &args[2], Path::new(&args[3])),
+        Some("replay") if args.len() >= 2 && replay_needs_isolation(&args[1]) => {
+            // the pinned case kills the process: run it in a child and judge the exit status
+            let rf: engine::ReplayFile = serde_json::from_str(&std::fs::read_to_string(&args[1]).unwrap()).unwrap();
+            let tmp = std::env::temp_dir().join(format!("pgcheck-replay-{}.json", std::process::id()));
+            std::fs::write(&tmp, rf.case.to_string()).unwrap();
+            let st = std::process::Command::new(std::env::current_exe().unwrap()).args(["run-case", &rf.property, &rf.sub]).arg(&tmp).status();
+            let _ = std::fs::remove_file(&tmp);
+            match st.map(|s| s.code()) {
+                Ok(Some(0)) => {
+                    println!("PASS property={} sub={}", rf.property, rf.sub);
+                    0
+                }
+                Ok(c) => {
+                    println!("VIOLATION property={} replay={}", rf.property, args[1]);
+                    println!("  sub={} signature: {} (child exit {:?})", rf.sub, rf.sig, c);
+                    1
+                }
+                Err(_) => 2,
+            }
         }
         Some("replay") if args.len() >= 2 => match engine::replay_file(&props, Path::new(&args[1])) {
             Err(e) => {
